@@ -543,6 +543,24 @@ FamEditRun(K, CH) ==
               j \in {1, 2}, k \in {1, 2, 3}, f \in ToSet(gr.srcs)} :
           gr \in UNION {GraphsS(sh, EditRunProfiles, K) : sh \in {"chain2", "chain3", "fanin", "fanout", "mixed", "alias", "implicit", "diamond", "group"}} }
 
+\* outputs (and with them depfiles) in directories of their own: the directory of every output has to exist when its
+\* command starts - on the first build, after the output was deleted, and when somebody removes the directory (with the
+\* output that ninja saw when it scanned the graph) while an earlier command of the same build is running
+RenSeq(q, a, b) == [k \in DOMAIN q |-> IF q[k] = a THEN b ELSE q[k]]
+InDir(gr, i) ==
+  LET o == gr.stmts[i].outs[1]  n == "d" \o ToString(i) \o "/" \o o IN
+  [gr EXCEPT !.stmts = [j \in DOMAIN gr.stmts |-> [gr.stmts[j] EXCEPT !.outs = RenSeq(@, o, n), !.ex = RenSeq(@, o, n), !.im = RenSeq(@, o, n), !.oo = RenSeq(@, o, n), !.val = RenSeq(@, o, n)]]]
+DirGraphs(K) ==
+  UNION { UNION { {InDir(gr, i) : i \in Cmds(gr)} \cup {InDir(InDir(gr, 1), Len(gr.stmts))} : gr \in GraphsS(sh, {"plain", "restat", "depfile", "gcc", "two"}, K) } :
+          sh \in {"chain2", "chain3", "fanin", "fanout", "mixed", "implicit"} }
+DirOf(gr, i) == "d" \o ToString(i) \o "/"
+HasDir(gr, i) == gr.stmts[i].outs[1] = "d" \o ToString(i) \o "/" \o O(i)
+FamDirs(K, CH) ==
+  UNION { {Scn(gr, <<Build(Roots(gr), j, 1), c, Build(Roots(gr), j, 1), Build(Roots(gr), j, 1)>>) : j \in {1, 2}, c \in Pick(CH, Changes(gr))}
+          \cup UNION { {Scn(gr, <<Build(Roots(gr), 2, 1), c, BX(Roots(gr), j, 1, [editrun |-> <<[k |-> 1, f |-> DirOf(gr, i)]>>]), Build(Roots(gr), 2, 1), Build(Roots(gr), 2, 1)>>) :
+                          j \in {1, 2}, c \in {x \in Changes(gr) : x.op \in {"edit", "touch"}}} : i \in {x \in Cmds(gr) : HasDir(gr, x)} } :
+          gr \in DirGraphs(K) }
+
 \* restat interplay: statement 1 is a restat statement whose input is touched (it re-runs and leaves
 \* its output alone) together with any other change, on random graphs
 RestatGraphs(R) ==
@@ -679,6 +697,7 @@ Family(name) ==
     [] name = "restat" -> FamRestat(ParK, ParCH)
     [] name = "dry" -> FamDry(ParK, ParCH)
     [] name = "editrun" -> FamEditRun(ParK, ParCH)
+    [] name = "dirs" -> FamDirs(ParK, ParCH)
     [] name = "cyc" -> FamCyc(ParK, ParCH)
     [] name = "twin" -> FamTwin(ParK, ParCH)
     [] name = "dyn" -> FamDyn(ParK, ParCH)
